@@ -4,7 +4,9 @@ import (
 	"fmt"
 	"go/ast"
 	"go/constant"
+	"go/token"
 	"go/types"
+	"regexp"
 	"sort"
 	"strings"
 
@@ -141,6 +143,27 @@ func (w *World) CommandSchemas() []*CmdSchema {
 						fillStringEnc(f, k)
 					}
 				}
+				// count fields the encoder recomputes from a buffer (`c.N = T(len(c.B))`): an internally
+				// consistent value has the count agree with the buffer, which becomes a precondition;
+				// fields emitted only under a condition are outside the fixed-layout schema.
+				counts, conditional := marshalFacts(pkg, ts.Name.Name)
+				for k, v := range unmarshalCounts(pkg, ts.Name.Name) {
+					if _, have := counts[k]; !have {
+						counts[k] = v
+					}
+				}
+				for i := range sc.Fields {
+					f := &sc.Fields[i]
+					if rq, ok := counts[f.Name]; ok {
+						if f.Req != "" {
+							f.Req += " && "
+						}
+						f.Req += rq
+					}
+					if conditional[f.Name] && f.Unsup == "" {
+						f.Unsup = "emitted only under a condition in Marshal (optional field)"
+					}
+				}
 				for _, f := range sc.Fields {
 					if f.Unsup != "" && sc.Unsup == "" {
 						sc.Unsup = f.Name + ": " + f.Unsup
@@ -175,6 +198,149 @@ func typeIsAndX(pkg *packages.Package, tname string) bool {
 		}
 	}
 	return false
+}
+
+// marshalFacts scans the Marshal method of a command for (a) assignments `c.N = T(len(c.B))` and
+// (b) if-statements whose body appends to rawParametersContent / rawDataContent.
+func marshalFacts(pkg *packages.Package, tname string) (map[string]string, map[string]bool) {
+	counts := map[string]string{}
+	cond := map[string]bool{}
+	for _, file := range pkg.Syntax {
+		for _, d := range file.Decls {
+			fd, ok := d.(*ast.FuncDecl)
+			if !ok || fd.Recv == nil || fd.Name.Name != "Marshal" || fd.Body == nil {
+				continue
+			}
+			if strings.TrimPrefix(types.ExprString(fd.Recv.List[0].Type), "*") != tname {
+				continue
+			}
+			recv := ""
+			if len(fd.Recv.List[0].Names) == 1 {
+				recv = fd.Recv.List[0].Names[0].Name
+			}
+			recvField := func(e ast.Expr) (string, bool) {
+				se, ok := e.(*ast.SelectorExpr)
+				if !ok {
+					return "", false
+				}
+				id, ok := se.X.(*ast.Ident)
+				if !ok || id.Name != recv {
+					return "", false
+				}
+				return se.Sel.Name, true
+			}
+			ast.Inspect(fd.Body, func(n ast.Node) bool {
+				switch s := n.(type) {
+				case *ast.AssignStmt:
+					if len(s.Lhs) != 1 || len(s.Rhs) != 1 {
+						return true
+					}
+					fn, ok := recvField(s.Lhs[0])
+					if !ok {
+						return true
+					}
+					conv, ok := s.Rhs[0].(*ast.CallExpr)
+					if !ok || len(conv.Args) != 1 {
+						return true
+					}
+					ln, ok := conv.Args[0].(*ast.CallExpr)
+					if !ok || len(ln.Args) != 1 {
+						return true
+					}
+					if id, ok := ln.Fun.(*ast.Ident); !ok || id.Name != "len" {
+						return true
+					}
+					arg := types.ExprString(ln.Args[0])
+					if recv != "c" {
+						return true
+					}
+					counts[fn] = fmt.Sprintf("int(c.%s) == len(%s)", fn, arg)
+				case *ast.IfStmt:
+					emits := false
+					ast.Inspect(s.Body, func(m ast.Node) bool {
+						if as, ok := m.(*ast.AssignStmt); ok && len(as.Lhs) == 1 {
+							if id, ok := as.Lhs[0].(*ast.Ident); ok && (id.Name == "rawParametersContent" || id.Name == "rawDataContent") {
+								emits = true
+							}
+						}
+						return true
+					})
+					if !emits {
+						return true
+					}
+					ast.Inspect(s, func(m ast.Node) bool {
+						if e, ok := m.(ast.Expr); ok {
+							if fn, ok := recvField(e); ok {
+								cond[fn] = true
+							}
+						}
+						return true
+					})
+				}
+				return true
+			})
+		}
+	}
+	return counts, cond
+}
+
+// unmarshalCounts scans the Unmarshal method for `c.B = raw[offset : offset+int(c.N)]`: the decoder takes the
+// length of buffer B from count field N, so an internally consistent value has int(c.N) == len(c.B).
+// The result is keyed by the buffer field (whose Req receives the relation).
+func unmarshalCounts(pkg *packages.Package, tname string) map[string]string {
+	out := map[string]string{}
+	for _, file := range pkg.Syntax {
+		for _, d := range file.Decls {
+			fd, ok := d.(*ast.FuncDecl)
+			if !ok || fd.Recv == nil || fd.Name.Name != "Unmarshal" || fd.Body == nil {
+				continue
+			}
+			if strings.TrimPrefix(types.ExprString(fd.Recv.List[0].Type), "*") != tname {
+				continue
+			}
+			if len(fd.Recv.List[0].Names) != 1 || fd.Recv.List[0].Names[0].Name != "c" {
+				continue
+			}
+			ast.Inspect(fd.Body, func(n ast.Node) bool {
+				as, ok := n.(*ast.AssignStmt)
+				if !ok || len(as.Lhs) != 1 || len(as.Rhs) != 1 {
+					return true
+				}
+				lhs, ok := as.Lhs[0].(*ast.SelectorExpr)
+				if !ok {
+					return true
+				}
+				if id, ok := lhs.X.(*ast.Ident); !ok || id.Name != "c" {
+					return true
+				}
+				se, ok := as.Rhs[0].(*ast.SliceExpr)
+				if !ok || se.High == nil {
+					return true
+				}
+				be, ok := se.High.(*ast.BinaryExpr)
+				if !ok || be.Op != token.ADD {
+					return true
+				}
+				conv, ok := be.Y.(*ast.CallExpr)
+				if !ok || len(conv.Args) != 1 {
+					return true
+				}
+				if id, ok := conv.Fun.(*ast.Ident); !ok || id.Name != "int" {
+					return true
+				}
+				cnt, ok := conv.Args[0].(*ast.SelectorExpr)
+				if !ok {
+					return true
+				}
+				if id, ok := cnt.X.(*ast.Ident); !ok || id.Name != "c" {
+					return true
+				}
+				out[lhs.Sel.Name] = fmt.Sprintf("int(c.%s) == len(c.%s)", cnt.Sel.Name, lhs.Sel.Name)
+				return true
+			})
+		}
+	}
+	return out
 }
 
 func bufferFormats(pkg *packages.Package, tname string) map[string]int {
@@ -229,6 +395,8 @@ func fillStringEnc(f *cmdField, k int) {
 	case 2, 4:
 		f.Enc = fmt.Sprintf("cat(bytes(%d), %s, bytes(0))", k, b)
 		f.Width = "2 + " + n
+		// a string fits a NUL-terminated format only if it contains no NUL itself
+		f.Req += fmt.Sprintf(" && forall(k, 0, %s, %s[k] != 0)", n, b)
 	default:
 		f.Unsup = fmt.Sprintf("unknown buffer format %d", k)
 	}
@@ -374,8 +542,18 @@ func (sc *CmdSchema) MarshalContractText() string {
 	if pconst >= 0 {
 		wexpr = fmt.Sprint((andx + pconst + 1) / 2)
 	}
+	// long chains of symbolic offsets (variable-length fields) are decided much faster over mathematical integers
+	varLen := false
+	for _, f := range sc.Fields {
+		if f.ConstW < 0 {
+			varLen = true
+		}
+	}
 	fmt.Fprintf(&sb, "//@ contract (*%s).Marshal\n", sc.Type)
-	fmt.Fprintf(&sb, "//@   requires len(c.Command.Parameters.Words) == 0 && len(c.Command.Data.Bytes) == 0\n")
+	if varLen {
+		fmt.Fprintf(&sb, "//@   prefer-int\n")
+	}
+	fmt.Fprintf(&sb, "//@   requires len(c.Command.Parameters.Words) == 0 && c.Command.Parameters.WordCount == 0 && len(c.Command.Data.Bytes) == 0\n")
 	fmt.Fprintf(&sb, "//@   requires %s <= 65535 && %s <= 500\n", db, wexpr)
 	for _, f := range sc.Fields {
 		if f.Req != "" {
@@ -389,12 +567,11 @@ func (sc *CmdSchema) MarshalContractText() string {
 	}
 	// parameter slots
 	off := fmt.Sprintf("%d", 1+andx)
-	var orders []string
 	for _, f := range params {
 		hi := "(" + off + ") + (" + f.Width + ")"
 		if f.EncBE != "" {
 			fmt.Fprintf(&sb, "//@   ensures [C04:slot:%s] eq(sub(result0, %s, %s), %s) || eq(sub(result0, %s, %s), %s)\n", f.Name, off, hi, f.Enc, off, hi, f.EncBE)
-			orders = append(orders, fmt.Sprintf("eq(sub(result0, %s, %s), %s)", off, hi, f.Enc))
+			fmt.Fprintf(&sb, "//@   ensures [C05:byte-order:%s] eq(sub(result0, %s, %s), %s)\n", f.Name, off, hi, f.Enc)
 		} else {
 			fmt.Fprintf(&sb, "//@   ensures [C04,C05:slot:%s] eq(sub(result0, %s, %s), %s)\n", f.Name, off, hi, f.Enc)
 		}
@@ -406,14 +583,11 @@ func (sc *CmdSchema) MarshalContractText() string {
 		hi := "(" + off + ") + (" + f.Width + ")"
 		if f.EncBE != "" {
 			fmt.Fprintf(&sb, "//@   ensures [C04:slot:%s] eq(sub(result0, %s, %s), %s) || eq(sub(result0, %s, %s), %s)\n", f.Name, off, hi, f.Enc, off, hi, f.EncBE)
-			orders = append(orders, fmt.Sprintf("eq(sub(result0, %s, %s), %s)", off, hi, f.Enc))
+			fmt.Fprintf(&sb, "//@   ensures [C05:byte-order:%s] eq(sub(result0, %s, %s), %s)\n", f.Name, off, hi, f.Enc)
 		} else {
 			fmt.Fprintf(&sb, "//@   ensures [C04,C05:slot:%s] eq(sub(result0, %s, %s), %s)\n", f.Name, off, hi, f.Enc)
 		}
 		off = hi
-	}
-	if len(orders) > 0 {
-		fmt.Fprintf(&sb, "//@   ensures [C05:byte-order] %s\n", strings.Join(orders, " && "))
 	}
 	var keeps []string
 	for _, f := range sc.Fields {
@@ -426,5 +600,44 @@ func (sc *CmdSchema) MarshalContractText() string {
 	}
 	fmt.Fprintf(&sb, "//@   ensures [C03:repeatable] len(c.Command.Parameters.Words) == 0 && len(c.Command.Data.Bytes) == 0\n")
 	fmt.Fprintf(&sb, "//@ end\n")
+	// round trip through the real decoder: the harness verifLemmaCmdRoundTrip_<T> (guarded file in the
+	// commands package) encodes c and decodes the bytes into a fresh initialised structure q; both method bodies are expanded in the harness (no contract in between).
+	var same []string
+	for _, f := range sc.Fields {
+		if f.Keep != "" {
+			same = append(same, rtExpr(f.Keep))
+		}
+	}
+	if len(same) > 0 {
+		fmt.Fprintf(&sb, "//@ contract verifLemmaCmdRoundTrip_%s\n", sc.Type)
+		if varLen {
+			fmt.Fprintf(&sb, "//@   prefer-int\n")
+		}
+		fmt.Fprintf(&sb, "//@   expand %s).Marshal %s).Unmarshal\n", sc.Type, sc.Type)
+		fmt.Fprintf(&sb, "//@   requires len(c.Command.Parameters.Words) == 0 && c.Command.Parameters.WordCount == 0 && len(c.Command.Data.Bytes) == 0\n")
+		fmt.Fprintf(&sb, "//@   requires %s <= 65535 && %s <= 500\n", db, wexpr)
+		for _, f := range sc.Fields {
+			if f.Req != "" {
+				fmt.Fprintf(&sb, "//@   requires %s\n", f.Req)
+			}
+		}
+		fmt.Fprintf(&sb, "//@   ensures [C04:roundtrip-accepted] result1 == nil\n")
+		for _, f := range sc.Fields {
+			if f.Keep != "" {
+				fmt.Fprintf(&sb, "//@   ensures [C04:roundtrip:%s] implies(result1 == nil, %s)\n", f.Name, rtExpr(f.Keep))
+			}
+		}
+		fmt.Fprintf(&sb, "//@ end\n")
+	}
 	return sb.String()
+}
+
+var rtOld = regexp.MustCompile(`old\(c\.`)
+var rtNew = regexp.MustCompile(`\bc\.`)
+
+// rtExpr turns "c.F == old(c.F)" into "result2.F == c.F" (decoded structure against the original).
+func rtExpr(keep string) string {
+	s := rtOld.ReplaceAllString(keep, "\x00(")
+	s = rtNew.ReplaceAllString(s, "result2.")
+	return strings.ReplaceAll(s, "\x00(", "(c.")
 }
